@@ -134,7 +134,7 @@ void body_decoder(Task &T, const Link &l, int halfrate) {
 }
 
 void body_vorbisfile(Task &T, const PhysStream &ps, int64_t total, uint64_t seed, bool seekable, int rdpol, int rdk) {
-  SimFile sf; sf.bytes = &ps.bytes; sf.seekable = seekable; sf.rdpol = rdpol; sf.rdk = rdk; sf.rdrng.reseed(seed ^ 5);
+  SimFile sf; sf.bytes = &ps.bytes; sf.seekable = seekable; sf.rdpol = rdpol; sf.rdk = rdk; sf.rdrng.reseed(seed ^ 5); sf.errno_noise = (int)((seed >> 9) & 1); sf.enrng.reseed(seed ^ 9);
   OggVorbis_File vf; ov_callbacks cb = {SimFile::cb_read, SimFile::cb_seek, SimFile::cb_close, SimFile::cb_tell};
   T.op_boundary("open");
   int r = T.api("ov_open_callbacks", [&] { return ov_open_callbacks(&sf, &vf, nullptr, 0, cb); }); T.h.i64(r); if (r) return;
